@@ -33,7 +33,53 @@ W = numpy.array([-1., 9., -45., 0., 45., -9., 1.]) / 60.
 
 def plan(tier, seed):
     n = scaled(NCASES[tier])
-    return [dict(start=i, stop=min(n, i + CHUNK)) for i in range(0, n, CHUNK)]
+    units = [dict(kind='gev', start=i, stop=min(n, i + CHUNK)) for i in range(0, n, CHUNK)]
+    nc = scaled(400 if tier == 'quick' else 12000)
+    units += [dict(kind='custom', start=i, stop=min(nc, i + 25)) for i in range(0, nc, 25)]
+    return units
+
+
+def custom_case(seed, i, res):
+    """user-defined operations (function.Custom.partial_derivative plumbing) composed with numpy-API operations"""
+    from nutils import function
+    from vlib import c04_custom as cc
+    rng = rng_for(seed, 'c04custom', i)
+    n = int(rng.integers(1, 4))
+    tree = cc.gen_tree(rng, int(rng.integers(1, 4)), n)
+    ops = custom_case.ops = getattr(custom_case, 'ops', None) or cc.make_ops()
+    u, w = function.Argument('u', (n,)), function.Argument('w', (n,))
+    uv, wv = rng.uniform(-1.2, 1.2, size=n), rng.uniform(-1.2, 1.2, size=n)
+    case = dict(custom=tree, n=n, index=i, u=uv.tolist(), w=wv.tolist())
+    res.count('custom/cases')
+    f = cc.build(tree, ops, u, w)
+    if not isinstance(f, function.Array) or not cc.uses(tree):
+        res.count('custom/trivial')
+        return case
+    val = function.eval(f, arguments=dict(u=uv, w=wv))
+    refval = cc.ref(tree, uv, wv)
+    scale = max(1., float(numpy.abs(refval).max()))
+    if tolerance.compare(val, refval, scale)[0] == tolerance.VIOLATION:
+        res.violation('user-defined operation evaluates to a different value', case, f'{val} != {refval}')
+        return case
+    for name, x0, other in (('u', uv, wv), ('w', wv, uv)):
+        if name not in f.arguments:
+            continue
+        D = function.eval(function.derivative(f, name), arguments=dict(u=uv, w=wv))
+        Jref = cc.fd((lambda x: cc.ref(tree, x, other)) if name == 'u' else (lambda x: cc.ref(tree, other, x)), x0)
+        sc = max(1., float(numpy.abs(Jref).max()), scale)
+        res.count('custom/jacobians_compared')
+        if numpy.abs(Jref).max() > 1e-9:
+            res.count('custom/jacobians_nonzero')
+            res.add('distinct', 'custom:' + repr(_skel(tree)) + name)
+        v, det = tolerance.compare(D, Jref, sc, rtol_pass=1e-6, rtol_viol=1e-4)
+        if v == tolerance.VIOLATION:
+            res.violation('derivative of a user-defined operation differs from the Jacobian of its numpy meaning', case, f'd/d{name}: {det}')
+            return case
+    return case
+
+
+def _skel(tree):
+    return [tree[0]] + [_skel(x) for x in tree[1:] if isinstance(x, list) and x and isinstance(x[0], str)]
 
 
 def setup():
@@ -294,6 +340,14 @@ def run_units(units, ctx):
             if ctx.expired():
                 res.count('skipped_deadline')
                 continue
+            if u.get('kind') == 'custom':
+                try:
+                    c = custom_case(ctx.seed, i, res)
+                    if i % 150 == 0:
+                        res.sample(c, cap=5)
+                except Exception as e:
+                    res.violation('user-defined operation: derivative or evaluation raised', dict(custom_index=i), traceback.format_exc()[-800:])
+                continue
             case = gen_case(ctx.seed, i)
             check_case(case, (ctx.seed, 'c04', i), res, ctx.tier)
             if i % 449 == 0:
@@ -310,6 +364,8 @@ def replay(case):
     res = Result()
     if 'case' in case:
         check_case(case['case'], (0, 'replay', 0), res, 'thorough')
+    elif 'custom' in case or 'custom_index' in case:
+        custom_case(case.get('seed', 0), case.get('index', case.get('custom_index', 0)), res)
     return res.violations
 
 
@@ -329,12 +385,15 @@ def finalize(m, tier, seed):
                skipped_c01_event=c.get('skipped_c01_event', 0), out_of_domain=c.get('out_of_domain', 0), inconclusive_wall=c.get('inconclusive_wall', 0),
                skipped_deadline=c.get('skipped_deadline', 0), refused_not_implemented=c.get('refused_not_implemented', 0), refusals=sorted(m.sets.get('refusals', ())),
                raw_nonfinite_default_finite=c.get('raw_nonfinite_default_finite', 0),
-               not_covered=['function.derivative / Custom.partial_derivative plumbing is exercised by C13 (linearize/derivative of function arrays), not here'])
+               custom_operations={k[7:]: v for k, v in c.items() if k.startswith('custom/')},
+               not_covered=['function.derivative of general function arrays (lowering, replace, linearize) is exercised by C13; here function.Custom operations only'])
     inc = None
     if cov['evaluations'] < 0.5 * scaled(NCASES[tier]):
         inc = f"only {cov['evaluations']} programs ran before the deadline"
     elif cov['jacobians_nonzero'] < 0.1 * cov['evaluations']:
         inc = 'too few non-zero Jacobians compared'
+    elif cov['custom_operations'].get('jacobians_nonzero', 0) < 20:
+        inc = 'too few user-defined-operation Jacobians compared'
     elif len(cov['derivative_rules_fired']) < 25:
         inc = f"only {len(cov['derivative_rules_fired'])} _derivative rules exercised"
     return dict(coverage=cov, inconclusive=inc)
